@@ -3,7 +3,7 @@ import json
 from collections import Counter
 
 from lib import vf, gensrv
-from checks import c01
+from checks import c01, c13
 
 
 def run(ctx):
@@ -20,6 +20,7 @@ def run(ctx):
     built = gensrv.build_matrix(ctx, "exec", cfgs0)
     # panic-containment facts, re-extracted from the server generated on this run
     ok_extract = not isinstance(built["base"], Exception) and ctx.extract("GoBoundaries", arg=gensrv.gen_dir("exec", "base"))
+    ok_extract = ok_extract and ctx.extract("ServeRecover")
     proved = ok_extract and ctx.prove(props=["GqlgenVerif.Props.C04", "GqlgenVerif.Props.C04Gen"])
     if ok_extract and not proved:
         ctx.cov["proof_failure"] = ctx.proof_failure
@@ -104,6 +105,57 @@ def run(ctx):
                 samples.append({"config": cfg, "query": r["query"], "fault": r["fault"], "kind": r["faultKind"],
                                 "data": r["payloads"][0]["data"], "errors": r["payloads"][0]["errors"], "recovers": r["recovers"]})
         per_cfg[cfg] = {"cases": len(lines), "corresponding": ok}
+    # ---- single faults inside deferred groups ("... deferred group"): the same enumeration over documents with
+    # @defer, judged by the defer model (Props/C13: failure_in_group_stays_in_group) and by the merge statement
+    ddivs = []
+    dcfgs = ["base", "wl2"] if ctx.tier == "quick" else ["base", "wl1", "wl2", "follow_funcsyn_wl2"]
+    n_dops = 40 if ctx.tier == "quick" else 300
+    for cfg in dcfgs:
+        b = built.get(cfg)
+        if b is None or isinstance(b, Exception):
+            continue
+        rc, so, se = vf.sh([b, "-mode", "faults", "-profile", "c13clean", "-n", str(n_dops), "-seed", str(ctx.seed)], timeout=2400)
+        if rc != 0:
+            ctx.violation({"kind": "crash", "config": cfg, "where": "deferred-group fault sweep", "stderr": se[-4000:],
+                           "shape": {"crash": True},
+                           "replay": "%s -mode faults -profile c13clean -n %d -seed %d" % (b, n_dops, ctx.seed)})
+            continue
+        dl = [l for l in so.split("\n") if l]
+        dmodel = ctx.driver("c13", [c01.schema_of(b)] + dl)
+        okd = 0
+        for l, m in zip(dl, dmodel):
+            r = json.loads(l)
+            total += 1
+            j = c13.judge(r, m)
+            if j is None:
+                continue
+            tags, why, spec_bad, mj = j
+            # delivery-order / path-findability clauses are C13's (its findings F13a, F13b); containment is
+            # about content: merged data, errors, each group once
+            spec_bad = [x for x in spec_bad if x.split(":")[0] not in
+                        ("child-group-before-parent-group", "orphan-payload-object-nulled") and not x.startswith("hasNext")]
+            if r.get("fault") and len(r["payloads"]) > 1:
+                infl = any((p.get("path") or "") and r["fault"].split("@")[0].startswith(p["path"]) for p in r["payloads"][1:])
+                dist["single-fault-with-deferred-groups"] += 1
+                if infl:
+                    dist["single-fault-under-a-deferred-group:" + r["faultKind"]] += 1
+                nontriv.add(r["query"] + r["fault"])
+            if why or spec_bad:
+                ddivs.append((cfg, r, mj, sorted(set(why)), spec_bad))
+            else:
+                okd += 1
+        per_cfg[cfg + "+defer"] = {"cases": len(dl), "corresponding": okd}
+    for cfg, r, mj, why, spec_bad in ddivs:
+        if len(ctx.violations) >= 20:
+            break
+        clauses = sorted(set(x.split(":")[0] for x in spec_bad))
+        rep = {"kind": "deferred-group-fault", "config": cfg, "why": why, "spec_clauses": spec_bad, "query": r["query"],
+               "variables": r.get("variables"), "plan": r.get("plan"), "fault": r.get("fault"), "faultKind": r.get("faultKind"),
+               "impl": r["payloads"], "plain": (r.get("plain") or {}).get("payloads"), "recovers": r["recovers"], "model": mj,
+               "shape": {"defer": True, "why": ",".join(why), "clauses": ",".join(clauses)},
+               "replay": "echo '<case json>' | <generated server %s> -mode run   (and the same with every @defer removed)" % cfg}
+        ctx.violation(rep, no_failing_input=not (spec_bad or any(w in c13.FAILING for w in why)))
+    boom(ctx, dist, nontriv, per_cfg)
     for cfg, r, mj, why in divs:
         if len(ctx.violations) >= 20:
             break
@@ -129,7 +181,120 @@ def run(ctx):
         "rule": "per configuration (worker_limit 0/1/2 ...): (a) for every operation of a generated corpus a fault-free run, then one run per user-code invocation it made with exactly that invocation forced to error / panic (directives: error / block / panic) - the single-fault enumeration; (b) random multi-fault plans with 4% panics; non-trivial = distinct (operation, fault) with an injected fault or a panic",
         "input_distribution": dict(dist),
         "configs": per_cfg,
-        "correspondence_divergences": len(divs),
+        "correspondence_divergences": len(divs) + len(ddivs),
         "samples": samples,
         "exhaustive_single_faults_over_corpus": True,
     })
+
+
+BOOM_MSG = "recovered: BOOM while serializing"
+
+
+def sse_wellformed(body):
+    """text/event-stream: every line is empty, a comment, or `field: value`; the stream ends with `event: complete`"""
+    lines = body.split("\n")
+    for ln in lines:
+        if ln and not ln.startswith(":") and not ln.split(":", 1)[0] in ("event", "data", "id", "retry"):
+            return "line is not an event-stream field: " + ln[:60]
+    if "event: complete" not in body:
+        return "no `event: complete`"
+    datas = [ln[5:].strip() for ln in lines if ln.startswith("data:")]
+    for d in datas:
+        try:
+            json.loads(d)
+        except ValueError:
+            return "data line is not JSON"
+    if not any(BOOM_MSG in d for d in datas):
+        return "the error is in no data line"
+    return None
+
+
+def multipart_wellformed(body):
+    """multipart/mixed: parts introduced by the boundary, closed by the closing boundary, each part JSON"""
+    if "\r\n---\r\n" not in "\r\n" + body and "--" not in body[:4]:
+        return "no part boundary"
+    if not body.rstrip().endswith("-----"):
+        return "no closing boundary"
+    return None
+
+
+def boom(ctx, dist, nontriv, per_cfg):
+    """`A panic raised while serializing a value fails only that response with a well-formed error body`:
+    a custom scalar whose MarshalGQL panics, through the real handler.Server over real connections, each
+    panicking request followed by an ordinary one that says nothing about operationName / variables."""
+    try:
+        b = gensrv.build_server(ctx, "execboom", "base")
+    except RuntimeError as e:
+        ctx.violation({"kind": "generated-server-does-not-build", "config": "execboom:base", "detail": str(e)[-3000:],
+                       "shape": {"config": "execboom:base", "build": "fail"}})
+        return
+    rounds = 6 if ctx.tier == "quick" else 40
+    plan0 = {"seed": ctx.seed, "rates": {}}
+    sites = [
+        ("boom", "query Boom($v: Boolean!) { ok @include(if: $v) boom t { s } }", {"boom": {"kind": "value", "str": "BOOM"}}),
+        ("nested", "query Boom($v: Boolean!) { t { kid { b } } ok @include(if: $v) }", {"t/kid": {"kind": "value"}, "t": {"kind": "value"}, "t/kid/b": {"kind": "value", "str": "BOOM"}}),
+        ("list-element", "query Boom($v: Boolean!) { ok @include(if: $v) ts { bs } }", {"ts": {"kind": "value", "len": 2}, "ts/1#elem": {"kind": "value"}, "ts/1/bs": {"kind": "value", "len": 3}, "ts/1/bs/2#elem": {"kind": "value", "str": "BOOM"}}),
+        ("non-null", "query Boom($v: Boolean!) { t { bNN } ok @include(if: $v) }", {"t": {"kind": "value"}, "t/bNN": {"kind": "value", "str": "BOOM"}}),
+    ]
+    cases = [{"id": "ref", "transport": "post", "bare": True, "query": "{ ok t { s } }", "plan": plan0}]
+    for k in range(rounds):
+        name, q, ov = sites[k % len(sites)]
+        tr = ["post", "get", "post", "sse", "multipart", "post"][k % 6]
+        c = {"id": "panic-%d-%s-%s" % (k, name, tr), "transport": tr, "query": q, "variables": {"v": k % 2 == 0},
+             "plan": {"seed": ctx.seed, "rates": {}, "overrides": ov}}
+        if tr != "get":
+            c["operationName"] = "Boom"
+        cases.append(c)
+        cases.append({"id": "after-%d" % k, "transport": "post", "bare": True, "query": "{ ok t { s } }", "plan": plan0})
+    rc, so, se = vf.sh([b, "-mode", "http"], inp="\n".join(json.dumps(c) for c in cases) + "\n", timeout=600)
+    if rc != 0:
+        ctx.violation({"kind": "crash", "config": "execboom:base", "where": "serialization panic over HTTP", "stderr": se[-4000:],
+                       "shape": {"crash": True, "where": "serialization"}, "cases": cases})
+        return
+    res = [json.loads(l) for l in so.split("\n") if l]
+    if len(res) != len(cases):
+        ctx.violation({"kind": "crash", "config": "execboom:base", "where": "serialization panic over HTTP: runner answered %d of %d" % (len(res), len(cases)),
+                       "shape": {"crash": True, "where": "serialization"}, "cases": cases})
+        return
+    ref = res[0]
+    okc = 0
+    for c, r in zip(cases[1:], res[1:]):
+        bad = None
+        tr = c["transport"]
+        if c["id"].startswith("panic"):
+            dist["serialization-panic:" + tr] += 1
+            nontriv.add(c["id"])
+            if r.get("hung"):
+                bad = "no answer (hung)"
+            elif r["recovers"] != 1:
+                bad = "recover hook ran %d times" % r["recovers"]
+            elif tr in ("post", "get"):
+                try:
+                    j = json.loads(r.get("body") or "")
+                    if r["status"] != 422 or j.get("data") is not None or [e.get("message") for e in j.get("errors") or []] != [BOOM_MSG]:
+                        bad = "status %s body %s" % (r["status"], (r.get("body") or "")[:200])
+                except ValueError:
+                    bad = "body is not JSON: " + (r.get("body") or "")[:200]
+            elif tr == "sse":
+                w = sse_wellformed(r.get("body") or "")
+                if w:
+                    bad = "event stream not well-formed: " + w
+            elif tr == "multipart":
+                w = multipart_wellformed(r.get("body") or "")
+                if w:
+                    bad = "multipart body not well-formed: " + w
+            shape = {"kind": "serialization-panic", "transport": tr, "what": (bad or "").split(":")[0]}
+        else:
+            dist["request-after-serialization-panic"] += 1
+            if r.get("status") != ref.get("status") or r.get("body") != ref.get("body") or r.get("recovers"):
+                bad = "the request after the contained panic is not answered as before it: %s %s (before: %s %s)" % (
+                    r.get("status"), (r.get("body") or "")[:200], ref.get("status"), (ref.get("body") or "")[:200])
+            shape = {"kind": "request-after-serialization-panic"}
+        if bad:
+            i = cases.index(c)
+            ctx.violation({"kind": shape["kind"], "what": bad, "config": "execboom:base", "case": c, "result": r,
+                           "preceding_cases": cases[max(0, i - 2):i], "shape": shape,
+                           "replay": "printf '%%s\\n' '<preceding cases + case json>' | <generated server execboom:base> -mode http"})
+        else:
+            okc += 1
+    per_cfg["execboom:base/http"] = {"cases": len(cases) - 1, "as_stated": okc}
